@@ -48,6 +48,13 @@ pub trait ExIndexDatabase: salsa::Database + salsa::plumbing::HasQueryGroup<ide:
     type ExternalTraitSpecificationFor: ide::index::IndexDatabase;
     fn index(&self) -> (r: Arc<Index>) ensures idx_diags(&*r) == index_diags(self);
 }
+
+pub use syntax::error::SyntaxError;
+#[verifier::external_type_specification] pub struct ExSyntaxError(SyntaxError);
+/// FileRange::new / Diagnostic::new are plain constructors (file_system.rs, handlers/diagnostics.rs)
+pub assume_specification [FileRange::new] (file: FileId, range: TextRange) -> (r: FileRange) ensures r.file == file, r.range == range;
+pub assume_specification<M: Into<String>> [Diagnostic::new] (location: FileRange, message: M) -> (r: Diagnostic) ensures r.location == location;
+pub assume_specification [SourceRoot::root] (s: &SourceRoot) -> FileId;
 /// A-hash: FileId (a u32 newtype with derived Eq/Hash) obeys vstd's key model
 pub broadcast axiom fn ax_fileid_key_model() ensures #[trigger] obeys_key_model::<FileId>();
 }
